@@ -5,7 +5,8 @@
   `byteswap` (ALG) is the code's double loop over `_reversebytes` (slice read, `tobytes()[::-1]`, slice assignment);
   `swapSpec` (SPEC) says: inside `[start, start + k·total)` every group of the pattern is byte-reversed, nothing else
   changes, `k` = number of times the pattern fits (once at most without `repeat`).
-  Valid region: `repeat = True`, or the pattern fits into `[start, end)` (the other case is C03's known deviation).
+  Without `repeat` the pattern is applied once if it fits into `[start, end)` and not at all otherwise
+  (`finalbit = min(start + total, end)` since fix 9ec0c93); the theorems hold for every window and both settings.
 -/
 import BitstringModel.Model.C18
 import BitstringModel.Proofs.C18
@@ -16,15 +17,14 @@ namespace BM.C18
 open BM
 
 /-- The code's loops compute the byte-group reversal, for every bit string, every pattern list (from an int, a
-    list or a struct string), every window and both repeat settings in the valid region; the returned count is the
+    list or a struct string), every window and both repeat settings; the returned count is the
     number of times the pattern was applied. -/
 theorem byteswap_eq_spec (l : Bits) (f : Fmt) (s e : Option Int) (rep : Bool) (a z : Nat) (sizes : List Nat)
-    (hv : validateSlice l.length s e = .ok (a, z)) (hf : fmtSizes f a z = .ok sizes)
-    (hvalid : rep = true ∨ a + 8 * sizes.sum ≤ z) :
+    (hv : validateSlice l.length s e = .ok (a, z)) (hf : fmtSizes f a z = .ok sizes) :
     byteswap l f s e rep = .ok (swapSpec l sizes a z rep) :=
-  Swap.byteswap_eq_spec' l f s e rep a z sizes hv hf hvalid
+  Swap.byteswap_eq_spec' l f s e rep a z sizes hv hf
 
-/-- `byteswap` raises exactly when the window or the format is rejected (no other failure in the valid region). -/
+/-- `byteswap` raises exactly when the window or the format is rejected (no other failure). -/
 theorem byteswap_error_iff (l : Bits) (f : Fmt) (s e : Option Int) (rep : Bool) :
     (byteswap l f s e rep).toOption = none ↔
       ((validateSlice l.length s e).toOption = none ∨
@@ -56,20 +56,20 @@ theorem swapGroups_involutive (sizes : List Nat) (b : Bits) (hlen : b.length = 8
     swapGroups sizes (swapGroups sizes b) = b ∧ (swapGroups sizes b).length = b.length :=
   ⟨Swap.swapGroups_swapGroups sizes b hlen, Swap.swapGroups_length sizes b hlen⟩
 
-/-- The length never changes and nothing outside the swapped groups changes (valid region). -/
+/-- The length never changes and nothing outside the swapped groups changes. -/
 theorem byteswap_frame (l : Bits) (f : Fmt) (s e : Option Int) (rep : Bool) (a z : Nat) (sizes : List Nat)
     (hv : validateSlice l.length s e = .ok (a, z)) (hf : fmtSizes f a z = .ok sizes)
-    (hvalid : rep = true ∨ a + 8 * sizes.sum ≤ z) (k : Nat) (l' : Bits)
+    (k : Nat) (l' : Bits)
     (h : byteswap l f s e rep = .ok (k, l')) :
     l'.length = l.length ∧ l'.take a = l.take a ∧
     l'.drop (a + k * (8 * sizes.sum)) = l.drop (a + k * (8 * sizes.sum)) ∧ a + k * (8 * sizes.sum) ≤ z := by
   obtain ⟨haz, hzl⟩ := Swap.validateSlice_bounds _ _ _ _ _ hv
   by_cases htot : 8 * sizes.sum = 0
-  · rw [byteswap_eq_spec l f s e rep a z sizes hv hf hvalid] at h
+  · rw [byteswap_eq_spec l f s e rep a z sizes hv hf] at h
     simp only [swapSpec, htot, if_true, Except.ok.injEq, Prod.mk.injEq] at h
     obtain ⟨rfl, rfl⟩ := h
     simp [htot, haz]
-  · obtain ⟨hk, hl'⟩ := Swap.byteswap_struct l f s e rep a z sizes hv hf hvalid htot k l' h
+  · obtain ⟨hk, hl'⟩ := Swap.byteswap_struct l f s e rep a z sizes hv hf htot k l' h
     subst hk
     have hkb := Swap.swapCount_bound sizes a z rep haz
     have hpre : (l.take a).length = a := by simp; omega
@@ -84,14 +84,14 @@ theorem byteswap_frame (l : Bits) (f : Fmt) (s e : Option Int) (rep : Bool) (a z
     · rw [hl', List.append_assoc, List.take_left' hpre]
     · rw [hl', List.drop_left' (by rw [List.length_append, hmid', hmid, hpre])]
 
-/-- "applying it twice is the identity": for every byte-pattern format, window and repeat setting (valid region), a
+/-- "applying it twice is the identity": for every byte-pattern format, window and repeat setting, a
     second identical call restores the original bits and reports the same count. -/
 theorem byteswap_twice_id (l : Bits) (f : Fmt) (s e : Option Int) (rep : Bool) (a z : Nat) (sizes : List Nat)
     (hv : validateSlice l.length s e = .ok (a, z)) (hf : fmtSizes f a z = .ok sizes)
-    (hvalid : rep = true ∨ a + 8 * sizes.sum ≤ z) (k : Nat) (l' : Bits)
+    (k : Nat) (l' : Bits)
     (h : byteswap l f s e rep = .ok (k, l')) :
     byteswap l' f s e rep = .ok (k, l) :=
-  Swap.byteswap_twice' l f s e rep a z sizes hv hf hvalid k l' h
+  Swap.byteswap_twice' l f s e rep a z sizes hv hf k l' h
 
 /-- The default call on a whole-byte bit string reverses all its bytes (one application). -/
 theorem byteswap_whole (b : Bits) (h8 : b.length % 8 = 0) (hne : b ≠ []) :
@@ -100,7 +100,7 @@ theorem byteswap_whole (b : Bits) (h8 : b.length % 8 = 0) (hne : b ≠ []) :
   have hv : validateSlice b.length none none = .ok (0, b.length) := by
     simp [validateSlice]
   have hf : fmtSizes .none 0 b.length = .ok [b.length / 8] := rfl
-  rw [byteswap_eq_spec b .none none none true 0 b.length [b.length / 8] hv hf (Or.inl rfl)]
+  rw [byteswap_eq_spec b .none none none true 0 b.length [b.length / 8] hv hf]
   have hsum : 8 * [b.length / 8].sum = b.length := by simp; omega
   unfold swapSpec
   simp only [hsum, if_true, Nat.sub_zero]
